@@ -24,7 +24,7 @@ import re
 REF_FILE = os.path.join(os.path.dirname(__file__), "private_ref.json")
 THRESHOLD = 0.6
 MARGIN = 0.08
-MOVED_THRESHOLD = 0.8
+MOVED_THRESHOLD = 0.75
 
 
 def _is_accessor(n):
@@ -92,8 +92,11 @@ def masked_text(fn, private_names):
 
         def visit_keyword(self, n):
             self.generic_visit(n)
-    _R().visit(f2)
-    return ast.unparse(f2)
+    # the signature is not compared (a method that becomes a function gains / loses parameters): locals are numbered by their
+    # first appearance in the body
+    for st_ in f2.body:
+        _R().visit(st_)
+    return "\n".join(ast.unparse(st_) for st_ in f2.body)
 
 
 def reference_of(trees):
